@@ -38,7 +38,7 @@ PROPS = {
         "assumptions": ["hash values are 32 bytes (Rust types); theorems hold up to an explicit hash collision / zero-digest preimage event"],
     },
     "C15": {
-        "coq_deps": ["ManagerFacts"],
+        "coq_deps": ["ManagerFacts", "MgrBatch"],
         "steps": [
             {"sub": "mgr", "quick": [0], "thorough": [1]},
         ],
@@ -51,7 +51,7 @@ PROPS = {
                         "the in-memory database's query functions are modelled by Manager.find_item (validated by the correspondence)"],
     },
     "C16": {
-        "coq_deps": ["ManagerFacts", "CacheProto", "CacheRegular"],
+        "coq_deps": ["ManagerFacts", "MgrBatch", "CacheProto", "CacheRegular"],
         "steps": [
             {"sub": "mgr", "quick": [0], "thorough": [1]},
             {"sub": "proto", "quick": [0], "thorough": [1]},
